@@ -32,7 +32,7 @@ func c07Extra(t *rapid.T, sc *Scenario) {
 
 func TestC07(t *testing.T) {
 	st := NewStats("C07", "engine", "scenario = one ObjectDeployment over 2-4 templates (+ empty template) with template edits incl. reverts and no-op edits, pause toggles, API errors / lost responses / crashes on any call of any pass (incl. between ObjectSet create and status update), restarts, and a reader for the deployment controller that may not yet see ObjectSets created since the last sync; non-trivial = history with a revert to an earlier template, or a fault that fired, or an open lag window at a deployment pass")
-	opts := SetGenOpts{AllowClass: false, PoolSize: 4, MaxObjs: 2, MaxPhases: 2}
+	opts := SetGenOpts{AllowClass: false, AllowCluster: true, PoolSize: 4, MaxObjs: 2, MaxPhases: 2}
 	mk := func(sc *Scenario) (*Runner, *C07Monitor) {
 		m := &C07Monitor{}
 		return NewRunner(sc, m), m
@@ -63,6 +63,9 @@ func TestC07(t *testing.T) {
 		}
 		if revert {
 			r.Labels["template-revert"] = true
+		}
+		if sc.ClusterDep {
+			r.Labels["cluster-scoped-deployment"] = true
 		}
 		st.Case(sc, m.Creates > 0 && (revert || r.Labels["fault-fired"] || r.Labels["lag-window-opened"]), r.LabelList()...)
 		st.Report(rt, sc, err)
@@ -137,9 +140,89 @@ func genC08Handover(t *rapid.T, opts SetGenOpts) *Scenario {
 	return sc
 }
 
+// genC08Prune: a directed family around history pruning: 3-5 revisions of templates without probes (every revision becomes
+// Available once rolled out) under a generous history limit, so archived revisions pile up; around the last template edit
+// the user lowers the limit and/or an API fault hits a call of the deployment controller, so the pass that archives the
+// outgoing revision is also one that has to prune - with archived revisions ahead of the one it archives.
+func genC08Prune(t *rapid.T, opts SetGenOpts) *Scenario {
+	sc := &Scenario{Prop: "C08"}
+	n := rapid.IntRange(3, 5).Draw(t, "nrev")
+	for i := 0; i < n; i++ {
+		s := GenSet(t, opts)
+		s.Probes = nil
+		// make the templates pairwise different whatever was drawn
+		s.Phases = append(s.Phases, PhaseSpec{Name: "px", Objs: []ObjSpec{{Pool: 3, Variant: i}}})
+		for pi := range s.Phases[:len(s.Phases)-1] {
+			var keep []ObjSpec
+			for _, o := range s.Phases[pi].Objs {
+				if mod(o.Pool, engine.NativePoolSize) != 3 && o.Pool < engine.NativePoolSize {
+					keep = append(keep, o)
+				}
+			}
+			s.Phases[pi].Objs = keep
+		}
+		sc.Tmpls = append(sc.Tmpls, s)
+	}
+	sc.Steps = append(sc.Steps, Step{Op: "createDeploy", I: 0, J: rapid.SampledFrom([]int{0, 11, 5, 4}).Draw(t, "limit")}, Step{Op: "quiesce"})
+	dep := []string{engine.CtrlObjectDeployment}
+	all := []string{engine.CtrlObjectDeployment, engine.CtrlObjectDeployment, engine.CtrlObjectSet, engine.CtrlObjectSet, engine.CtrlObjectSetPhase}
+	disturb := func() {
+		switch rapid.IntRange(0, 3).Draw(t, "disturb") {
+		case 0, 1:
+			sc.Steps = append(sc.Steps, Step{Op: "historyLimit", I: rapid.IntRange(1, 3).Draw(t, "lim")})
+		case 2:
+			sc.Steps = append(sc.Steps, Step{Op: "fault", I: rapid.IntRange(0, 8).Draw(t, "ncall"), J: rapid.IntRange(0, 3).Draw(t, "fkind")}, GenReconcile(t, dep))
+		default:
+		}
+	}
+	for i := 1; i < n; i++ {
+		sc.Steps = append(sc.Steps, Step{Op: "editDeploy", I: i})
+		if i < n-1 {
+			if rapid.IntRange(0, 3).Draw(t, "early") == 0 {
+				disturb()
+			}
+			sc.Steps = append(sc.Steps, Step{Op: "quiesce"})
+			continue
+		}
+		if rapid.Bool().Draw(t, "freeform") {
+			for k := rapid.IntRange(2, 12).Draw(t, "last"); k > 0; k-- {
+				if rapid.IntRange(0, 3).Draw(t, "d") == 0 {
+					disturb()
+				} else {
+					sc.Steps = append(sc.Steps, GenReconcile(t, all))
+				}
+			}
+			continue
+		}
+		// rounds of "deployment pass, then (most of) the revisions' own passes": the outgoing revision is paused in one round,
+		// confirms it in the next, is archived in the one after; a disturbance lands right before one of the deployment passes
+		for round := rapid.IntRange(3, 5).Draw(t, "rounds"); round > 0; round-- {
+			if rapid.IntRange(0, 2).Draw(t, "d") == 0 {
+				disturb()
+			}
+			sc.Steps = append(sc.Steps, Step{Op: "reconcile", Ctrl: engine.CtrlObjectDeployment})
+			if rapid.IntRange(0, 3).Draw(t, "settleSets") > 0 {
+				sc.Steps = append(sc.Steps, Step{Op: "settleSets"})
+				continue
+			}
+			for set := 0; set < n; set++ {
+				if rapid.IntRange(0, 5).Draw(t, "skip") == 0 {
+					continue
+				}
+				sc.Steps = append(sc.Steps, Step{Op: "reconcile", Ctrl: engine.CtrlObjectSet, I: set}, Step{Op: "reconcile", Ctrl: engine.CtrlObjectSetPhase, I: rapid.IntRange(0, 5).Draw(t, "ph")})
+			}
+		}
+	}
+	sc.Steps = append(sc.Steps, Step{Op: "quiesce"})
+	if rapid.Bool().Draw(t, "lateLimit") {
+		sc.Steps = append(sc.Steps, Step{Op: "historyLimit", I: rapid.IntRange(1, 2).Draw(t, "lim")}, Step{Op: "quiesce"})
+	}
+	return sc
+}
+
 func TestC08(t *testing.T) {
 	st := NewStats("C08", "engine", "scenario = one ObjectDeployment over 2-4 overlapping templates with probe-driven availability changes, all revisionHistoryLimit values, pause toggles on revisions, arbitrary interleaving of the deployment controller with the revisions' reconciles; non-trivial = an archival or prune happened")
-	opts := SetGenOpts{AllowClass: true, PoolSize: 4, MaxObjs: 3, MaxPhases: 2, CPs: []string{"", "", "", "Prevent", "IfNoController", "None"}}
+	opts := SetGenOpts{AllowClass: true, AllowCluster: true, PoolSize: 4, MaxObjs: 3, MaxPhases: 2, CPs: []string{"", "", "", "Prevent", "IfNoController", "None"}}
 	mk := func(sc *Scenario) (*Runner, *C08Monitor) {
 		m := &C08Monitor{}
 		// "adopted in place": the handover rules of C02 (only forward, one controller) are watched as well
@@ -151,13 +234,22 @@ func TestC08(t *testing.T) {
 	}, func(rt *rapid.T) {
 		var sc *Scenario
 		family := "family-general"
-		if rapid.IntRange(0, 3).Draw(rt, "family") == 0 {
+		switch f := rapid.IntRange(0, 7).Draw(rt, "family"); {
+		case f <= 1:
 			sc, family = genC08Handover(rt, opts), "family-handover"
-		} else {
+		case f == 2 || f == 3:
+			sc, family = genC08Prune(rt, opts), "family-prune"
+			if rapid.IntRange(0, 3).Draw(rt, "clusterdep") == 0 {
+				clusterFlavour(sc)
+			}
+		default:
 			sc = genDeployWorld(rt, "C08", opts, c09Extra)
 		}
 		r, m := mk(sc)
 		r.Labels[family] = true
+		if sc.ClusterDep {
+			r.Labels["cluster-scoped-deployment"] = true
+		}
 		err := remapProp(r.Run(), "C08")
 		st.Count("passes", int64(len(r.W.Passes)))
 		st.Count("archivals", int64(m.Archivals))
